@@ -756,6 +756,9 @@ def stream_layout(ctx):
     # the documented no-blank subtraction forms
     progs += [[['নাম', 'খ', '=', '১০', ';'], ['দেখাও', '১০', '-', '৩', ';'], ['দেখাও', 'খ', '-', '৩', ';'], ['দেখাও', '(', 'খ', ')', '-', '৩', '-', '২', ';'], ['দেখাও', '[', '১০', ']', '+', '[', '-৩', ']', ';'], ['দেখাও', '২', '*', '-', '৩', ';']]]
     progs += [[['নাম', 'ক', '=', '[', '৫', ']', ';'], ['দেখাও', '৫', '-', '১', ';'], ['দেখাও', 'ক', '[', '০', ']', '-', '১', ';'], ['দেখাও', '(', 'ক', '[', '০', ']', ')', '-', '১', ';'], ['দেখাও', '৫', '-', '-১', ';']]]
+    # comma-less list and record literals: adjacent string tokens cannot fuse
+    progs += [[['দেখাও', '[', '"ক"', '"খ"', '"গ"', ']', ';'], ['নাম', 'র', '=', '@', '{', '"a"', '->', '"x"', '"b"', '->', '"y"', '}', ';'], ['দেখাও', 'র', ';'],
+               ['দেখাও', '[', '"ক"', '১', '"খ"', '[', '"গ"', '"ঘ"', ']', ']', ';'], ['দেখাও', '_লিস্ট-লেন', '(', '[', '""', '""', '"a"', '""', ']', ')', ';'], ['দেখাও', '[', '"ক"', '"খ"', ']', '+', '[', '"গ"', ']', ';']]]
     cases = []
     for gi, st in enumerate(progs):
         variants = [('canon', layout(ctx.rng, st, 'canon')), ('min', layout(ctx.rng, st, 'min'))]
